@@ -2,6 +2,7 @@ package main
 
 import (
 	"fmt"
+	"go/token"
 	"go/types"
 	"strings"
 
@@ -73,6 +74,9 @@ func (ex *Exec) rangeStart(src Value) Value {
 	if m == nil {
 		return it
 	}
+	if ex.sh.raceCheck && ex.gor != nil {
+		ex.raceAccess(ex.racePseudo(m, "map"), nil, false, false, token.NoPos)
+	}
 	n := len(m.ids)
 	it.ids = append([]uint64{}, m.ids...)
 	if n >= 2 && !ex.noMapPerm {
@@ -130,14 +134,18 @@ func (ex *Exec) chanSend(ch *ChanV, v Value) {
 			panic(&goPanic{msg: "send on closed channel"})
 		}
 		if len(ch.q) < ch.cap {
+			ex.raceAcquire(fmt.Sprintf("chr:%p", ch))
+			ex.raceRelease(fmt.Sprintf("ch:%p", ch))
 			ch.q = append(ch.q, clone(v))
 			return
 		}
 		if ch.cap == 0 {
 			// rendezvous: model as capacity-1 handoff (receiver must take it)
 			if len(ch.q) == 0 {
+				ex.raceRelease(fmt.Sprintf("ch:%p", ch))
 				ch.q = append(ch.q, clone(v))
 				ex.block(func() bool { return len(ch.q) == 0 || ch.closed }, "unbuffered send")
+				ex.raceAcquire(fmt.Sprintf("chr:%p", ch))
 				return
 			}
 		}
@@ -153,9 +161,12 @@ func (ex *Exec) chanRecv(ch *ChanV, et types.Type) (Value, bool) {
 		if len(ch.q) > 0 {
 			v := ch.q[0]
 			ch.q = ch.q[1:]
+			ex.raceAcquire(fmt.Sprintf("ch:%p", ch))
+			ex.raceRelease(fmt.Sprintf("chr:%p", ch))
 			return v, true
 		}
 		if ch.closed {
+			ex.raceAcquire(fmt.Sprintf("ch:%p", ch))
 			return zero(et), false
 		}
 		ex.block(func() bool { return len(ch.q) > 0 || ch.closed }, "chan receive")
@@ -223,9 +234,13 @@ func (ex *Exec) selectStmt(fr *frame, x *ssa.Select) Value {
 		if s.ch.closed {
 			panic(&goPanic{msg: "send on closed channel"})
 		}
+		ex.raceAcquire(fmt.Sprintf("chr:%p", s.ch))
+		ex.raceRelease(fmt.Sprintf("ch:%p", s.ch))
 		s.ch.q = append(s.ch.q, clone(s.send))
 		return res
 	}
+	ex.raceAcquire(fmt.Sprintf("ch:%p", s.ch))
+	ex.raceRelease(fmt.Sprintf("chr:%p", s.ch))
 	ri := 2
 	for i, xs := range x.States {
 		if xs.Dir == types.RecvOnly {
@@ -256,6 +271,7 @@ type gstate struct {
 	canRun    func() bool
 	what      string
 	held      []heldLock
+	vc        vclock // happens-before clock (race analysis)
 }
 
 type sched struct {
@@ -290,6 +306,7 @@ func (ex *Exec) spawn(fnv Value, args []Value) {
 	g := &gstate{id: len(sc.gs), wake: make(chan struct{}, 1)}
 	sc.gs = append(sc.gs, g)
 	sc.live++
+	ex.raceFork(sc.cur, g)
 	go func() {
 		<-g.wake
 		defer func() { sc.exited <- struct{}{} }()
@@ -545,6 +562,10 @@ func (ex *Exec) lockOp(p Ptr, op string) {
 			ls.writer = g.id + 1
 		}
 		g.held = append(g.held, heldLock{key, class, read})
+		ex.raceAcquire("mu:w:" + key)
+		if !read {
+			ex.raceAcquire("mu:r:" + key)
+		}
 	case "Unlock", "RUnlock":
 		read := op == "RUnlock"
 		found := false
@@ -554,6 +575,11 @@ func (ex *Exec) lockOp(p Ptr, op string) {
 				found = true
 				break
 			}
+		}
+		if read {
+			ex.raceRelease("mu:r:" + key)
+		} else {
+			ex.raceRelease("mu:w:" + key)
 		}
 		if read {
 			if ls.readers[g.id] > 0 {
